@@ -344,6 +344,7 @@ Theorem inf_valid_meaning p :
   inf_valid p = true <->
   valid_denom (inf_denom p) = true /\
   0 <= inf_a p /\ 0 <= inf_r p <= 10 ^ 18 /\ 0 <= inf_c p /\ 0 < inf_bt p <= 10 ^ 18 /\ 0 <= inf_mv p /\
+  inf_computable (inf_a p) (inf_r p) (inf_c p) (inf_bt p) (inf_mv p) = true /\
   0 <= inf_staking p /\ 0 <= inf_community p /\ inf_staking p + inf_community p = 10 ^ 18.
 Proof.
   unfold inf_valid, inf_validate, inf_v_denom, inf_v_exp.
